@@ -9,6 +9,7 @@ import (
 	"time"
 
 	"github.com/arloliu/go-secs/v2/hsms"
+	"github.com/arloliu/go-secs/v2/internal/vhook"
 	"github.com/arloliu/go-secs/v2/secs2"
 )
 
@@ -72,6 +73,8 @@ func (t *transport) recvLoop(g *genWG) {
 		}
 
 		t.lastRecvStamp.Store(t.monoNanos()) // any complete inbound frame is proof of link liveness
+
+		vhook.At("hsmsss.recv.beforeDispatch")
 
 		if !t.dispatchFrame(g, frame) {
 			// dispatchFrame already drove teardown (a peer Separate while Selected called
